@@ -118,4 +118,5 @@ func genMore(outDir string) {
 	genTwap(outDir)
 	genIncentives(outDir)
 	genGammMath(outDir)
+	genDet(outDir)
 }
